@@ -234,10 +234,13 @@ Definition run_prog (gcf : list instr -> option (list instr)) (inp : sx) : sx :=
                   ofN (of_be (1%N :: hdr));
                   SL recvd;
                   (* the hypotheses/conclusion of the theorems on this program:
-                     wf_prog of the step list, consts_tabled (the extra hypothesis
+                     wf_prog of the step list, consts_read_tabled (the extra hypothesis
                      of the simulation theorem), no_premature_reuse of the gc'd
                      list (2 = not evaluated: more than 4096 wire ids) *)
-                  SL [ofB (wf_prog p steps && outbits_ok p steps && gc_visited_agrees steps gsteps); ofB (consts_tabled p steps);
+                  SL [ofB (wf_prog p steps && outbits_ok p steps && gc_visited_agrees steps gsteps);
+                      (* 1 = consts_read_tabled and consts_tabled, 3 = consts_read_tabled only (an
+                         untabled constant operand no gate reads), 2 = neither *)
+                      ofnat ((if consts_read_tabled p steps then 1 else 0) + (if consts_tabled p steps then 0 else 2));
                       if (fold_left N.max (map ct_maxid (ss_trace st)) 0 <=? 4096)%N
                       then ofB (no_premature_reuse p gsteps) else SZ 2;
                       (* the circuit cache is a memo: same key => same shape *)
